@@ -127,6 +127,13 @@ def _resolve(tu, f, node, helpers):
             return None
         return m, args
     h = tu.funcs.get(nm)
+    if h is not None and h.template and h.qual in helpers:
+        # function template: inline the instantiation this call refers to
+        callee = strip(kids(n)[0], casts=True) if kids(n) else {}
+        inst = getattr(tu, "tinst", {}).get(callee.get("referencedDecl", {}).get("id"))
+        if inst is not None and inst.body is not None:
+            return inst, args
+        return None
     if h is None or h.qual not in helpers or h.body is None or h.template:
         return None
     return h, args
